@@ -69,7 +69,7 @@ theorem getN_setN_ne (l : List Nat) (i j v : Nat) (h : i ≠ j) : getN (setN l i
 
 /-- what every reachable top-level state satisfies -/
 structure Inv (s : St) : Prop where
-  abLen : s.ab.length = 5
+  abLen : s.ab.length = 6
   lbLen : s.lb.length = 4
   pendLe : s.pend ≤ s.bal
   assetSum : s.bal + s.ab.sum = s.assetSupply
@@ -79,7 +79,7 @@ structure Inv (s : St) : Prop where
 
 /-- the weaker invariant that holds inside a borrower's callback (the counter is not zero) -/
 structure CbInv (s : St) : Prop where
-  abLen : s.ab.length = 5
+  abLen : s.ab.length = 6
   lbLen : s.lb.length = 4
   assetSum : s.bal + s.ab.sum = s.assetSupply
   lpSum : s.lpVault + s.lb.sum = s.sup
@@ -177,9 +177,9 @@ theorem withdraw_ok_of_some {s s' : St} {who lp : Nat} (h : withdraw s who lp = 
 theorem shareOf_le (s : St) (lp : Nat) (hS : s.sup ≠ 0) : shareOf s lp * s.sup ≤ backing s * lp :=
   withdraw_out_le _ _ _ (by omega)
 
-theorem withdraw_spec_gen {s s' : St} {who lp : Nat} (hab : s.ab.length = 5) (hlb : s.lb.length = 4)
+theorem withdraw_spec_gen {s s' : St} {who lp : Nat} (hab : s.ab.length = 6) (hlb : s.lb.length = 4)
     (hw : who < 4) (h : withdraw s who lp = some s') :
-    s'.ab.length = 5 ∧ s'.lb.length = 4 ∧
+    s'.ab.length = 6 ∧ s'.lb.length = 4 ∧
     s'.bal + s'.ab.sum = s.bal + s.ab.sum ∧
     s'.lpVault + s'.lb.sum + lp = s.lpVault + s.lb.sum ∧ s'.sup = s.sup - lp ∧
     s'.bal + shareOf s lp = s.bal ∧ s'.pend = s.pend ∧ s'.lpVault = s.lpVault ∧ s'.ctr = s.ctr ∧
@@ -242,10 +242,10 @@ theorem collect_spec {s s' : St} (hI : Inv s) (h : collect s = some s') :
       · simp only [collectRes]; exact getN_setN_same _ _ _ h4
       · simp only [collectRes]; omega
 
-theorem payIn_spec {s s' : St} {a n : Nat} (hab : s.ab.length = 5) (ha : a < 5)
+theorem payIn_spec {s s' : St} {a n : Nat} (hab : s.ab.length = 6) (ha : a < 6)
     (h : payIn s a n = some s') :
     s' = { s with ab := setN s.ab a (getN s.ab a - n), bal := s.bal + n } ∧ n ≤ getN s.ab a ∧
-    s'.bal + s'.ab.sum = s.bal + s.ab.sum ∧ s'.ab.length = 5 := by
+    s'.bal + s'.ab.sum = s.bal + s.ab.sum ∧ s'.ab.length = 6 := by
   unfold payIn at h
   split at h
   · cases h
@@ -257,10 +257,10 @@ theorem payIn_spec {s s' : St} {a n : Nat} (hab : s.ab.length = 5) (ha : a < 5)
     refine ⟨rfl, hle, ?_, by simp [setN_length, hab]⟩
     simp only; omega
 
-theorem payOut_spec {s s' : St} {a n : Nat} (hab : s.ab.length = 5) (ha : a < 5)
+theorem payOut_spec {s s' : St} {a n : Nat} (hab : s.ab.length = 6) (ha : a < 6)
     (h : payOut s a n = some s') :
     s' = { s with ab := setN s.ab a (getN s.ab a + n), bal := s.bal - n } ∧ n ≤ s.bal ∧
-    s'.bal + s'.ab.sum = s.bal + s.ab.sum ∧ s'.ab.length = 5 := by
+    s'.bal + s'.ab.sum = s.bal + s.ab.sum ∧ s'.ab.length = 6 := by
   unfold payOut at h
   split at h
   · cases h
@@ -321,9 +321,9 @@ theorem CbRel.trans {a b c : St} (h1 : CbRel a b) (h2 : CbRel b c) : CbRel a c :
    h2.burned.trans h1.burned, h2.assetSupply.trans h1.assetSupply, h2.fees.trans h1.fees,
    h2.kind.trans h1.kind, h2.lpVault.trans h1.lpVault⟩
 
-theorem transferOut_spec {s s' : St} {dst n : Nat} (hab : s.ab.length = 5)
+theorem transferOut_spec {s s' : St} {dst n : Nat} (hab : s.ab.length = 6)
     (h : transferOut s dst n = some s') :
-    s'.ab.length = 5 ∧ s'.ab.sum = s.ab.sum ∧ s' = { s with ab := s'.ab } := by
+    s'.ab.length = 6 ∧ s'.ab.sum = s.ab.sum ∧ s' = { s with ab := s'.ab } := by
   unfold transferOut at h
   split at h
   · cases h
@@ -331,7 +331,7 @@ theorem transferOut_spec {s s' : St} {dst n : Nat} (hab : s.ab.length = 5)
     injection h with h; subst h
     have hto : dst < 3 := by omega
     have h3 : 3 < s.ab.length := by rw [hab]; omega
-    have hlen : (setN s.ab 3 (getN s.ab 3 - n)).length = 5 := by rw [setN_length]; exact hab
+    have hlen : (setN s.ab 3 (getN s.ab 3 - n)).length = 6 := by rw [setN_length]; exact hab
     have s1 := setN_sum s.ab 3 (getN s.ab 3 - n) h3
     have s2 := setN_sum (setN s.ab 3 (getN s.ab 3 - n)) dst
       (getN (setN s.ab 3 (getN s.ab 3 - n)) dst + n) (by rw [hlen]; omega)
@@ -441,34 +441,27 @@ structure LoanSpec (s s' : St) (amount : Nat) : Prop where
   fees : s'.fees = s.fees
   lpVault : s'.lpVault = s.lpVault
 
-theorem loan_spec {s s' : St} {amount : Nat} {cb : List Act} (hI : Inv s)
-    (h : loanFrom s amount cb = some s') : LoanSpec s s' amount := by
-  unfold loanFrom at h
-  rw [run] at h
-  split at h
-  · cases h
-  split at h
-  · cases h
-  split at h
-  · cases h
-  split at h
-  · cases h
-  rename_i s1 hp
-  split at h
-  · cases h
-  rename_i s2 hr
-  -- the loan leaves
+/-- the state in which a borrower's callback starts (loan paid out to account `a`, counter raised)
+    satisfies the callback invariant -/
+theorem cb_start {s s1 : St} {amount a : Nat} (hI : Inv s) (ha : a < 6)
+    (hp : payOut { s with ctr := s.ctr + 1 } a amount = some s1) : CbInv s1 := by
+  obtain ⟨hs1, _, hsum1, hlen1⟩ := payOut_spec (s := { s with ctr := s.ctr + 1 }) (a := a) (n := amount)
+    hI.abLen ha hp
+  refine ⟨hlen1, ?_, ?_, ?_, ?_⟩
+  · rw [hs1]; exact hI.lbLen
+  · rw [hsum1, hs1]; exact hI.assetSum
+  · rw [hs1]; exact hI.lpSum
+  · rw [hs1]; simp
+
+/-- the common tail of every flash loan: the loan left for account `a`, the borrower's messages took
+    the callback-start state `s1` to `s2` preserving `CbInv`/`CbRel`, and `after_trade` accepted -/
+theorem loan_tail {s s1 s2 s' : St} {amount a : Nat} (hI : Inv s) (ha : a < 6)
+    (hp : payOut { s with ctr := s.ctr + 1 } a amount = some s1)
+    (hI2 : CbInv s2) (r : CbRel s1 s2) (h : afterTrade s2 s.bal amount = some s') :
+    LoanSpec s s' amount := by
   have hctr0 := hI.ctr0
-  obtain ⟨hs1, hle, hsum1, hlen1⟩ := payOut_spec (s := { s with ctr := s.ctr + 1 }) (a := 3) (n := amount)
-    hI.abLen (by omega) hp
-  have hI1 : CbInv s1 := by
-    refine ⟨hlen1, ?_, ?_, ?_, ?_⟩
-    · rw [hs1]; exact hI.lbLen
-    · rw [hsum1, hs1]; exact hI.assetSum
-    · rw [hs1]; exact hI.lpSum
-    · rw [hs1]; simp
-  -- the callback runs
-  obtain ⟨hI2, r⟩ := runs_cb hI1 hr
+  obtain ⟨hs1, hle, hsum1, hlen1⟩ := payOut_spec (s := { s with ctr := s.ctr + 1 }) (a := a) (n := amount)
+    hI.abLen ha hp
   have e_sup : s1.sup = s.sup := by rw [hs1]
   have e_pend : s1.pend = s.pend := by rw [hs1]
   have e_ctr : s1.ctr = s.ctr + 1 := by rw [hs1]
@@ -511,5 +504,295 @@ theorem loan_spec {s s' : St} {amount : Nat} {cb : List Act} (hI : Inv s)
   · exact hsup2
   · have := r.ctr; omega
   · exact hlv
+
+theorem loan_spec {s s' : St} {amount : Nat} {cb : List Act} (hI : Inv s)
+    (h : loanFrom s amount cb = some s') : LoanSpec s s' amount := by
+  unfold loanFrom at h
+  rw [run] at h
+  split at h
+  · cases h
+  split at h
+  · cases h
+  split at h
+  · cases h
+  split at h
+  · cases h
+  rename_i s1 hp
+  split at h
+  · cases h
+  rename_i s2 hr
+  obtain ⟨hI2, r⟩ := runs_cb (cb_start hI (by omega) hp) hr
+  exact loan_tail hI (by omega) hp hI2 r h
+
+/-! ### the vault router -/
+
+theorem move_spec {s s' : St} {src dst n : Nat} (hab : s.ab.length = 6) (hs : src < 6) (hd : dst < 6)
+    (h : move s src dst n = some s') :
+    s'.ab.length = 6 ∧ s'.ab.sum = s.ab.sum ∧ s' = { s with ab := s'.ab } ∧ n ≤ getN s.ab src ∧
+    s'.ab = setN (setN s.ab src (getN s.ab src - n)) dst
+      (getN (setN s.ab src (getN s.ab src - n)) dst + n) := by
+  unfold move at h
+  split at h
+  · cases h
+  · rename_i hc
+    injection h with h; subst h
+    have h3 : src < s.ab.length := by rw [hab]; omega
+    have hlen : (setN s.ab src (getN s.ab src - n)).length = 6 := by rw [setN_length]; exact hab
+    have s1 := setN_sum s.ab src (getN s.ab src - n) h3
+    have s2 := setN_sum (setN s.ab src (getN s.ab src - n)) dst
+      (getN (setN s.ab src (getN s.ab src - n)) dst + n) (by rw [hlen]; omega)
+    have hn : n ≤ getN s.ab src := by omega
+    refine ⟨by simp [setN_length, hab], ?_, rfl, hn, rfl⟩
+    simp only; omega
+
+theorem move_cb {s s' : St} {src dst n : Nat} (hI : CbInv s) (hs : src < 6) (hd : dst < 6)
+    (h : move s src dst n = some s') : CbInv s' ∧ CbRel s s' := by
+  obtain ⟨hlen, hsum, heq, _, _⟩ := move_spec hI.abLen hs hd h
+  rw [heq]
+  exact ⟨⟨hlen, hI.lbLen, by simp only; rw [hsum]; exact hI.assetSum, hI.lpSum, hI.ctrPos⟩,
+    ⟨le_refl _, le_refl _, rfl, rfl, rfl, rfl, rfl, rfl, rfl⟩⟩
+
+theorem payIn_cb {s s' : St} {a n : Nat} (hI : CbInv s) (ha : a < 6) (h : payIn s a n = some s') :
+    CbInv s' ∧ CbRel s s' := by
+  obtain ⟨rfl, _, hsum, hlen⟩ := payIn_spec hI.abLen ha h
+  exact ⟨⟨hlen, hI.lbLen, by rw [hsum]; exact hI.assetSum, hI.lpSum, hI.ctrPos⟩,
+    ⟨le_refl _, le_refl _, rfl, rfl, rfl, rfl, rfl, rfl, rfl⟩⟩
+
+theorem collect_cb {s s' : St} (hI : CbInv s) (h : collect s = some s') : CbInv s' ∧ CbRel s s' := by
+  have := run_cb (a := .collect) hI (by rw [run_collect]; exact h)
+  exact this
+
+/-- everything the router's `CompleteLoan` does (`i` = the initiator, not the router itself) -/
+theorem completeLoan_spec {s s' : St} {i n : Nat} (hab : s.ab.length = 6) (hi : i < 5)
+    (h : completeLoan s i n = some s') :
+    payback s n ≤ getN s.ab 5 ∧ s' = { s with ab := s'.ab, bal := s.bal + payback s n } ∧
+    s'.ab.length = 6 ∧ s'.ab.sum + payback s n = s.ab.sum ∧
+    getN s'.ab 5 = 0 ∧ getN s'.ab i = getN s.ab i + (getN s.ab 5 - payback s n) ∧
+    (∀ j, j ≠ 5 → j ≠ i → getN s'.ab j = getN s.ab j) := by
+  unfold completeLoan at h
+  generalize payback s n = pb at *
+  split at h
+  · cases h
+  split at h
+  · cases h
+  rename_i _ hge
+  have hge : pb ≤ getN s.ab 5 := by omega
+  have h5 : 5 < s.ab.length := by rw [hab]; omega
+  have hsum0 := setN_sum s.ab 5 (getN s.ab 5 - pb) h5
+  have hg5 : getN (setN s.ab 5 (getN s.ab 5 - pb)) 5 = getN s.ab 5 - pb := getN_setN_same _ _ _ h5
+  have hlen1 : (setN s.ab 5 (getN s.ab 5 - pb)).length = 6 := by rw [setN_length]; exact hab
+  split at h
+  · cases h
+  rename_i s1 hp
+  obtain ⟨hs1, _, _, _⟩ := payIn_spec hab (by omega) hp
+  have e_ab : s1.ab = setN s.ab 5 (getN s.ab 5 - pb) := by rw [hs1]
+  split at h
+  · rename_i h0
+    injection h with h; subst h
+    refine ⟨hge, ?_, ?_, ?_, ?_, ?_, ?_⟩
+    · rw [hs1]
+    · rw [e_ab]; exact hlen1
+    · rw [e_ab]; omega
+    · rw [e_ab, hg5]; exact h0
+    · rw [e_ab, getN_setN_ne _ _ _ _ (by omega), h0]; rfl
+    · intro j hj _; rw [e_ab]; exact getN_setN_ne _ _ _ _ (by omega)
+  · rename_i hpos
+    have hab1 : s1.ab.length = 6 := by rw [e_ab]; exact hlen1
+    obtain ⟨hlen, hsum, heq, _, hab'⟩ := move_spec hab1 (by omega) (by omega) h
+    rw [e_ab, hg5, Nat.sub_self] at hab'
+    have h5' : 5 < (setN s.ab 5 (getN s.ab 5 - pb)).length := by rw [hlen1]; omega
+    have hi' : i < (setN (setN s.ab 5 (getN s.ab 5 - pb)) 5 0).length := by
+      rw [setN_length, hlen1]; omega
+    refine ⟨hge, ?_, hlen, ?_, ?_, ?_, ?_⟩
+    · rw [heq, hs1]
+    · rw [hsum, e_ab]; omega
+    · rw [hab', getN_setN_ne _ _ _ _ (by omega)]; exact getN_setN_same _ _ _ h5'
+    · rw [hab', getN_setN_same _ _ _ hi', getN_setN_ne _ _ _ _ (by omega),
+        getN_setN_ne _ _ _ _ (by omega)]
+    · intro j hj hji
+      rw [hab', getN_setN_ne _ _ _ _ (by omega), getN_setN_ne _ _ _ _ (by omega),
+        getN_setN_ne _ _ _ _ (by omega)]
+
+theorem completeLoan_cb {s s' : St} {i n : Nat} (hI : CbInv s) (hi : i < 5)
+    (h : completeLoan s i n = some s') : CbInv s' ∧ CbRel s s' := by
+  obtain ⟨_, heq, hlen, hsum, _⟩ := completeLoan_spec hI.abLen hi h
+  have hs := hI.assetSum
+  have e_bal : s'.bal = s.bal + payback s n := by rw [heq]
+  refine ⟨⟨hlen, ?_, ?_, ?_, ?_⟩, ⟨?_, ?_, ?_, ?_, ?_, ?_, ?_, ?_, ?_⟩⟩
+  · rw [heq]; exact hI.lbLen
+  · have e : s'.assetSupply = s.assetSupply := by rw [heq]
+    rw [e, e_bal]; omega
+  · rw [heq]; exact hI.lpSum
+  · rw [heq]; exact hI.ctrPos
+  all_goals rw [heq]
+
+/-- a plain transfer between accounts keeps the top-level invariant and moves nothing of the vault's -/
+theorem move_inv {s s' : St} {src dst n : Nat} (hI : Inv s) (hs : src < 6) (hd : dst < 6)
+    (h : move s src dst n = some s') :
+    Inv s' ∧ backing s' = backing s ∧ s'.sup = s.sup ∧ s'.lpVault = s.lpVault ∧ s'.bal = s.bal := by
+  obtain ⟨hlen, hsum, heq, _, _⟩ := move_spec hI.abLen hs hd h
+  rw [heq]
+  exact ⟨⟨hlen, hI.lbLen, hI.pendLe, by simp only; rw [hsum]; exact hI.assetSum, hI.lpSum, hI.locked,
+    hI.ctr0⟩, rfl, rfl, rfl, rfl⟩
+
+/-- `CompleteLoan` succeeds whenever the router holds the (non-zero, 128-bit) payback amount -/
+theorem completeLoan_some {s : St} {i n : Nat} (hab : s.ab.length = 6)
+    (hmax : payback s n ≤ U128MAX) (hge : payback s n ≤ getN s.ab 5) (hpos : 0 < payback s n) :
+    ∃ s', completeLoan s i n = some s' := by
+  unfold completeLoan
+  generalize payback s n = pb at *
+  have h5 : 5 < s.ab.length := by rw [hab]; omega
+  have hg5 : getN (setN s.ab 5 (getN s.ab 5 - pb)) 5 = getN s.ab 5 - pb := getN_setN_same _ _ _ h5
+  rw [if_neg (by omega), if_neg (by omega)]
+  unfold payIn
+  rw [if_neg (by omega)]
+  simp only []
+  split
+  · exact ⟨_, rfl⟩
+  · rename_i hne
+    unfold move
+    rw [if_neg (by simp only [hg5]; omega)]
+    exact ⟨_, rfl⟩
+
+/-- a router flash loan, put together from its parts -/
+theorem router_loan_of_parts {s s1 s2 s3 : St} {i amount : Nat} {payload : List RAct}
+    (hfl : s.flOn = true) (hc : s.ctr = 0)
+    (hp : payOut { s with ctr := s.ctr + 1 } 5 amount = some s1) (hr : rruns s1 payload = some s2)
+    (hcl : completeLoan s2 i amount = some s3) :
+    routerLoanFrom s i amount payload = afterTrade s3 s.bal amount := by
+  have e1 : (!s.flOn) = false := by rw [hfl]; rfl
+  unfold routerLoanFrom
+  rw [rrun]
+  rw [if_neg (by rw [e1]; simp), if_neg (by omega), if_neg (by omega), hp]
+  simp only []
+  rw [hr]
+  simp only []
+  rw [hcl]
+
+theorem rrun_fund (s : St) (n : Nat) : rrun s (.fund n) = move s 3 5 n := by simp only [rrun]
+theorem rrun_out (s : St) (dst n : Nat) :
+    rrun s (.out dst n) = if dst ≥ 3 then none else move s 5 dst n := by simp only [rrun]
+theorem rrun_pay (s : St) (n : Nat) : rrun s (.pay n) = payIn s 5 n := by simp only [rrun]
+theorem rrun_collect (s : St) : rrun s .collect = collect s := by simp only [rrun]
+theorem rrun_deposit (s : St) (n : Nat) : rrun s (.deposit n) = deposit s 5 n n := by simp only [rrun]
+theorem rrun_fail (s : St) : rrun s .fail = none := by simp only [rrun]
+theorem rrun_adv (s : St) (acts : List Act) : rrun s (.adv acts) = runs s acts := by simp only [rrun]
+theorem rrun_complete (s : St) (i n : Nat) :
+    rrun s (.complete i n) = if i ≥ 4 then none else completeLoan s i n := by simp only [rrun]
+theorem rrun_routerLoan (s : St) (i n : Nat) (p : List RAct) :
+    rrun s (.routerLoan i n p) = routerLoanFrom s i n p := rfl
+theorem rruns_nil (s : St) : rruns s [] = some s := by simp only [rruns]
+theorem rruns_cons_none {s : St} {a : RAct} (as : List RAct) (h : rrun s a = none) :
+    rruns s (a :: as) = none := by
+  rw [rruns, h]
+theorem rruns_cons_some {s s1 : St} {a : RAct} (as : List RAct) (h : rrun s a = some s1) :
+    rruns s (a :: as) = rruns s1 as := by
+  rw [rruns, h]
+
+/-- a router flash loan requested while a loan is in flight is refused by the vault -/
+theorem routerLoanFrom_ctr (s : St) (i n : Nat) (p : List RAct) (h : s.ctr ≠ 0) :
+    routerLoanFrom s i n p = none := by
+  unfold routerLoanFrom
+  rw [rrun]
+  simp [h]
+
+/-- every successful payload message preserves the callback invariant -/
+theorem rrun_cb {s s' : St} {a : RAct} (hI : CbInv s) (h : rrun s a = some s') :
+    CbInv s' ∧ CbRel s s' := by
+  cases a with
+  | fund n => rw [rrun_fund] at h; exact move_cb hI (by omega) (by omega) h
+  | out dst n =>
+    rw [rrun_out] at h
+    split at h
+    · cases h
+    · exact move_cb hI (by omega) (by omega) h
+  | pay n => rw [rrun_pay] at h; exact payIn_cb hI (by omega) h
+  | collect => rw [rrun_collect] at h; exact collect_cb hI h
+  | deposit n => rw [rrun_deposit, deposit_ctr _ _ _ _ hI.ctrPos] at h; cases h
+  | fail => rw [rrun_fail] at h; cases h
+  | adv acts => rw [rrun_adv] at h; exact runs_cb hI h
+  | complete i n =>
+    rw [rrun_complete] at h
+    split at h
+    · cases h
+    · exact completeLoan_cb hI (by omega) h
+  | routerLoan i n p => rw [rrun_routerLoan, routerLoanFrom_ctr _ _ _ _ hI.ctrPos] at h; cases h
+
+theorem rruns_cb {s s' : St} {as : List RAct} (hI : CbInv s) (h : rruns s as = some s') :
+    CbInv s' ∧ CbRel s s' := by
+  induction as generalizing s with
+  | nil => rw [rruns_nil] at h; injection h with h; subst h; exact ⟨hI, CbRel.refl _⟩
+  | cons a as ih =>
+    cases h1 : rrun s a with
+    | none => rw [rruns_cons_none as h1] at h; cases h
+    | some s1 =>
+      rw [rruns_cons_some as h1] at h
+      obtain ⟨hI1, r1⟩ := rrun_cb hI h1
+      obtain ⟨hI2, r2⟩ := ih hI1 h
+      exact ⟨hI2, r1.trans r2⟩
+
+/-- a deposit anywhere in a payload makes the whole payload fail -/
+theorem rruns_deposit_fails {s : St} {as : List RAct} (hI : CbInv s) (n : Nat)
+    (hmem : RAct.deposit n ∈ as) : rruns s as = none := by
+  induction as generalizing s with
+  | nil => cases hmem
+  | cons a as ih =>
+    cases h1 : rrun s a with
+    | none => exact rruns_cons_none as h1
+    | some s1 =>
+      rw [rruns_cons_some as h1]
+      rcases List.mem_cons.mp hmem with rfl | hm
+      · rw [rrun_deposit, deposit_ctr _ _ _ _ hI.ctrPos] at h1; cases h1
+      · exact ih (rrun_cb hI h1).1 hm
+
+/-- the same for a further router flash loan -/
+theorem rruns_routerLoan_fails {s : St} {as : List RAct} (hI : CbInv s) (i n : Nat) (p : List RAct)
+    (hmem : RAct.routerLoan i n p ∈ as) : rruns s as = none := by
+  induction as generalizing s with
+  | nil => cases hmem
+  | cons a as ih =>
+    cases h1 : rrun s a with
+    | none => exact rruns_cons_none as h1
+    | some s1 =>
+      rw [rruns_cons_some as h1]
+      rcases List.mem_cons.mp hmem with rfl | hm
+      · rw [rrun_routerLoan, routerLoanFrom_ctr _ _ _ _ hI.ctrPos] at h1; cases h1
+      · exact ih (rrun_cb hI h1).1 hm
+
+/-- a successful router flash loan, taken apart: the vault's guards passed, the loan went to the router
+    (`s1`), the payload ran (`s2`), `CompleteLoan` ran (`s3`), and `after_trade` accepted -/
+theorem router_loan_parts {s s' : St} {i amount : Nat} {payload : List RAct}
+    (h : routerLoanFrom s i amount payload = some s') :
+    s.flOn = true ∧ s.ctr = 0 ∧ ∃ s1 s2 s3,
+      payOut { s with ctr := s.ctr + 1 } 5 amount = some s1 ∧ rruns s1 payload = some s2 ∧
+      completeLoan s2 i amount = some s3 ∧ afterTrade s3 s.bal amount = some s' := by
+  unfold routerLoanFrom at h
+  rw [rrun] at h
+  split at h
+  · cases h
+  rename_i hfl
+  split at h
+  · cases h
+  rename_i hc
+  split at h
+  · cases h
+  split at h
+  · cases h
+  rename_i s1 hp
+  split at h
+  · cases h
+  rename_i s2 hr
+  split at h
+  · cases h
+  rename_i s3 hcl
+  refine ⟨by simpa using hfl, by omega, s1, s2, s3, hp, hr, hcl, h⟩
+
+/-- a router flash loan satisfies the same specification as a direct one -/
+theorem router_loan_spec {s s' : St} {i amount : Nat} {payload : List RAct} (hI : Inv s) (hi : i < 5)
+    (h : routerLoanFrom s i amount payload = some s') : LoanSpec s s' amount := by
+  obtain ⟨_, _, s1, s2, s3, hp, hr, hcl, hat⟩ := router_loan_parts h
+  obtain ⟨hI2, r2⟩ := rruns_cb (cb_start hI (by omega) hp) hr
+  obtain ⟨hI3, r3⟩ := completeLoan_cb hI2 hi hcl
+  exact loan_tail hI (by omega) hp hI3 (r2.trans r3) hat
 
 end WW.Vault
